@@ -698,7 +698,43 @@ func setValue(dest, v reflect.Value, path []uintptr) {
 		}
 	}
 
+	if dest.Kind() == reflect.Map && v.Kind() == reflect.Map {
+		// a map that arrived untyped inside a list, a map or a struct: its keys and values are converted
+		// like the entries of one that is read for a field directly
+		if cv, ok := convertMap(dest.Type(), v, path); ok {
+			v = cv
+		}
+	}
+
 	dest.Set(v)
+}
+
+// convertMap converts the map v to destTyp, keys and values the way setValue stores them; path holds the
+// containers that are being converted around it (a decoded map can contain itself, and such a map has no
+// finite conversion: it is left as it is)
+func convertMap(destTyp reflect.Type, v reflect.Value, path []uintptr) (reflect.Value, bool) {
+	if v.IsNil() {
+		return reflect.Zero(destTyp), true
+	}
+	for _, p := range path {
+		if p == v.Pointer() {
+			return _zeroValue, false
+		}
+	}
+	path = append(path, v.Pointer())
+
+	m := reflect.MakeMapWithSize(destTyp, v.Len())
+	iter := v.MapRange()
+	for iter.Next() {
+		key := reflect.New(destTyp.Key()).Elem()
+		setValue(key, EnsureRawValue(iter.Key().Interface()), path)
+		value := reflect.New(destTyp.Elem()).Elem()
+		if e := iter.Value(); !(e.Kind() == reflect.Interface && e.IsNil()) {
+			setValue(value, EnsureRawValue(e.Interface()), path)
+		}
+		m.SetMapIndex(key, value)
+	}
+	return m, true
 }
 
 // convertValue returns a value of type typ that holds v the way SetValue stores it (pointers packed or
